@@ -100,7 +100,13 @@ func (s *sutA) oracle(w []string, res opResult, roundsBefore int) (string, strin
 				return "error names a replica that did not fail", d("calls %+v", res.calls)
 			}
 		default:
-			return "error does not name a replica", d("message %q", res.err.raw)
+			// An error reported by Close of the io.Reader (the failed repair
+			// write of a read) reaches the client without passing the
+			// composite's error handler: it is surfaced with its code and says
+			// "Replication failed", but cannot carry the replica's name.
+			if !(res.fromClose && f == "repl" && firedVia("repl")) {
+				return "error does not name a replica", d("message %q", res.err.raw)
+			}
 		}
 		if len(fired) == 0 && !contains(res.err.tags, "sinkabsent") {
 			return "error without a replica failure", d("calls %+v", res.calls)
